@@ -32,7 +32,8 @@ type Config struct {
 	LockMonitor     bool // Eraser-style lock discipline monitor
 	FullSchemaLib   bool // initialise and interpret the schema library's packages too (concrete bodies only)
 	GlobalMonitor   bool // report stores to package-level state
-	LogQueries      string // file to append standalone assertion queries to
+	LogQueries      string // file to append standalone solver queries (with the answer z3 gave) to
+	LogEvery        int    // log every n-th query
 	Verbose         bool
 	Only            string // restrict to one decision prefix (debug)
 }
@@ -293,6 +294,7 @@ type Exec struct {
 	uniMemo   map[*Term]*uniInfo
 	DomDecided int
 
+	queryCount   int
 	syncMaps     map[*Val]*MapV
 	sharedWrites []string
 
@@ -401,8 +403,14 @@ func (ex *Exec) evalModel(c *Term) uint64 {
 // check asks the solver for PC ∧ extra and returns a model on sat.
 func (ex *Exec) check(extra *Term) (Result, map[string]uint64) {
 	ex.flushPC()
-	// collect all variables so far
-	return ex.solver.CheckModel(extra, ex.vars)
+	r, m := ex.solver.CheckModel(extra, ex.vars)
+	if ex.eng.Cfg.LogQueries != "" && r != Unknown {
+		ex.queryCount++
+		if ex.queryCount%ex.eng.logEvery() == 0 {
+			ex.eng.logQuery(r.String(), ex.solver.Script(extra))
+		}
+	}
+	return r, m
 }
 
 func (ex *Exec) inPrefix() bool { return ex.pos < len(ex.prefix) }
@@ -641,10 +649,6 @@ func (ex *Exec) assert(id string, c *Term) {
 		st.Violated++
 		ex.addViolation("assert", id, "assertion violated", ex.model)
 	} else {
-		if ex.eng.Cfg.LogQueries != "" {
-			ex.flushPC()
-			ex.eng.logQuery(id, ex.solver.Script(neg))
-		}
 		r, m := ex.check(neg)
 		switch r {
 		case Unsat:
@@ -710,6 +714,13 @@ func (eng *Engine) done() {
 	eng.mu.Unlock()
 }
 
+func (eng *Engine) logEvery() int {
+	if eng.Cfg.LogEvery > 0 {
+		return eng.Cfg.LogEvery
+	}
+	return 1
+}
+
 var logMu sync.Mutex
 var traceQ = os.Getenv("GOSYM_TRACEQ") != ""
 var traceB = os.Getenv("GOSYM_TRACEQ") == "2"
@@ -722,7 +733,7 @@ func (eng *Engine) logQuery(id, script string) {
 		return
 	}
 	defer f.Close()
-	fmt.Fprintf(f, "; assertion %s harness %s\n(reset)\n%s", id, eng.Cfg.Harness, script)
+	fmt.Fprintf(f, "; expect %s harness %s\n(reset)\n%s", id, eng.Cfg.Harness, script)
 }
 
 // Run explores all paths of the configured harness.
